@@ -198,12 +198,29 @@ def run(ctx):
                 L = n.func.value.id
         if isinstance(n, ast.Assign) and len(n.targets) == 1 and isinstance(n.targets[0], ast.Name) and isinstance(n.value, ast.ListComp) and isinstance(n.value.elt, ast.Call) and isinstance(n.value.elt.func, ast.Name) and n.value.elt.func.id == "load_schema":
             L = n.targets[0].id
+    # the collected list may be reversed on the spot: `T = [load_schema(..) for ..][::-1]`
+    Lrev = None
+    for n in walk_local(lo.node):
+        if isinstance(n, ast.Assign) and len(n.targets) == 1 and isinstance(n.targets[0], ast.Name) and isinstance(n.value, ast.Subscript) and norm(n.value.slice) == "::-1":
+            v = n.value.value
+            if isinstance(v, ast.ListComp) and isinstance(v.elt, ast.Call) and isinstance(v.elt.func, ast.Name) and v.elt.func.id == "load_schema":
+                Lrev = n.targets[0].id
+                L = L or Lrev
+            elif isinstance(v, ast.Name) and v.id == L:
+                Lrev = n.targets[0].id
     rets = [s_ for s_ in summaries(cfg_of(lo)) if s_.kind == "return"]
     if L is None or not rets:
         ctx.unrecognised("C19.R4", "load_schema_ordered", lo.where(), "the list of loaded schemas / the return were not found")
     else:
         last = {f"{L}[::-1].pop(0)", f"list(reversed({L})).pop(0)", f"{L}[-1]", f"{L}.pop()", f"{L}.pop(-1)", f"{L}[::-1][0]", f"{L}[len({L}) - 1]"}
         first = {f"{L}[0]", f"{L}.pop(0)", f"{L}[::-1].pop()", f"{L}[::-1][-1]", f"list(reversed({L})).pop()"}
+        if Lrev is not None:
+            last |= {f"{Lrev}.pop(0)", f"{Lrev}[0]"}
+            first |= {f"{Lrev}.pop()", f"{Lrev}.pop(-1)", f"{Lrev}[-1]"}
+            if Lrev == L:
+                # L itself is the reversed list: "last loaded" is its first element
+                last -= {f"{L}[-1]", f"{L}.pop()", f"{L}.pop(-1)"}
+                first -= {f"{L}[0]", f"{L}.pop(0)"}
         texts = {r.text for r in rets}
         inj = [n for n in walk_local(lo.node) if isinstance(n, ast.Call) and isinstance(n.func, ast.Name) and n.func.id == "_inject_schema"]
         retnames = {norm(n.value) for n in walk_local(lo.node) if isinstance(n, ast.Return) and n.value is not None}
